@@ -3,6 +3,7 @@ package daemon
 import (
 	"os"
 	"runtime"
+	"time"
 
 	"golang.org/x/sys/unix"
 )
@@ -359,6 +360,23 @@ func vtRemove2(name string) error {
 	return nil
 }
 
+type vtInfo struct{ name string }
+
+func (i vtInfo) Name() string       { return i.name }
+func (i vtInfo) Size() int64        { return 0 }
+func (i vtInfo) Mode() os.FileMode  { return 0600 }
+func (i vtInfo) ModTime() time.Time { return time.Time{} }
+func (i vtInfo) IsDir() bool        { return false }
+func (i vtInfo) Sys() any           { return nil }
+
+func vtLstat2(name string) (os.FileInfo, error) {
+	runtime.Gosched()
+	if vtNames[name] == nil {
+		return nil, os.ErrNotExist
+	}
+	return vtInfo{name}, nil
+}
+
 func vtName2(file *os.File) string {
 	if f := vtLookup2(file); f != nil {
 		return f.name
@@ -429,6 +447,8 @@ var verifStubs_VerifC28Concurrent = map[string]any{
 	"(*os.File).Close":                 vtClose2,
 	"os.Remove":                        vtRemove2,
 	"os.Rename":                        vtRename2,
+	"os.Lstat":                         vtLstat2,
+	"os.Stat":                          vtLstat2,
 	"(*os.File).Name":                  vtName2,
 	"github.com/mutagen-io/mutagen/pkg/filesystem.WriteFileAtomic": vtWriteFileAtomic2,
 	"golang.org/x/sys/unix.FcntlFlock": vtFcntl2,
